@@ -431,7 +431,13 @@ class SelectedMailbox:
         if len(after.recent) != len(before.recent):
             yield RecentResponse(len(after.recent))
         new_recent = (after.recent - before.recent)
-        new_flags = (after.flags - before.flags - self._silenced_flags)
+        # a silenced update tells the client nothing only if the outcome is
+        # what the client predicted, otherwise it must be reported even when
+        # it equals the previously synchronized flags
+        silenced = self._silenced_flags
+        silenced_uids = {uid for uid, _ in silenced}
+        new_flags = {key for key in after.flags - silenced
+                     if key not in before.flags or key[0] in silenced_uids}
         new_sflags = (after.sflags - before.sflags - self._silenced_sflags)
         fetch_uids = chain(new_recent,
                            (uid for uid, _ in new_flags),
